@@ -614,6 +614,9 @@ func (s *sut) fsOp(f []string) string {
 		}
 	case "rmrf":
 		err = os.RemoveAll(p(1))
+	case "leavecwd":
+		// the process leaves the (deleted) working directory: the kernel can now free its inode
+		err = os.Chdir("/")
 	case "burst":
 		// many writes without draining: used to overflow the kernel queue
 		n, _ := strconv.Atoi(f[2])
